@@ -486,6 +486,11 @@ var historyTypes = []struct {
 	{"map of message holding a map", func() any { return &hm4{M: map[string]map0{"d": {K: map[int32]hv{5: hvFull}}}} }, func(x hv) any { return &hm4{M: map[string]map0{"k": {K: map[int32]hv{0: x}}}} }, func() any { return new(hm4) }},
 }
 
+func dirty3() []byte {
+	b, _ := proto.Marshal(&hm3{R: []hv{hvFull, hvFull, hvFull}})
+	return b
+}
+
 func afterFailedDecode(c *explore.Ctx) {
 	ht := historyTypes[c.Choose(len(historyTypes))]
 	mode := c.Choose(3) // truncate, replace by 0x07, replace by 0xff
@@ -532,6 +537,24 @@ func afterFailedDecode(c *explore.Ctx) {
 			if !reflect.DeepEqual(normalize(reflect.ValueOf(got)).Interface(), normalize(reflect.ValueOf(v)).Interface()) {
 				c.Fail("history:value-differs-after-failed-decode:"+ht.name, "Unmarshal(Marshal(v)) of %s sparse value #%d differs from v after a failed decode of % x (mode %d, offset %d): got %+v", ht.name, si, bad, mode, off, reflect.ValueOf(got).Elem().Interface())
 			}
+		}
+	}
+	// a target whose repeated field was truncated to be reused (spare capacity holding old elements)
+	if mode == 0 {
+		for si, x := range hvSparse {
+			t := new(hm3)
+			if err := proto.Unmarshal(dirty3(), t); err != nil {
+				break
+			}
+			t.R, t.M, t.N = t.R[:0], nil, nil
+			want := &hm3{R: []hv{x, x}}
+			b, _ := proto.Marshal(want)
+			if pv, ps := explore.Catch(func() { err = proto.Unmarshal(b, t) }); pv != nil {
+				c.Fail("history:panic:"+ps, "decoding into a recycled target panics: %v", pv)
+			} else if err != nil || !reflect.DeepEqual(normalize(reflect.ValueOf(t)).Interface(), normalize(reflect.ValueOf(want)).Interface()) {
+				c.Fail("history:stale-element-in-recycled-slice", "sparse value #%d decoded into a target whose repeated field had been truncated to length 0 gives %+v (err %v)", si, t.R, err)
+			}
+			n++
 		}
 	}
 	c.Inner(n)
